@@ -790,6 +790,49 @@ func c09FindFiles(e *Env, rule string) {
 			}
 		}
 	}
+	// the cleaning may be done in place by a helper of the package: h(paths) { for i … { paths[i] = filepath.Clean(paths[i]) } }
+	if stores == 0 {
+		for _, c := range callsIn(fn, false) {
+			g := c.Common().StaticCallee()
+			if g == nil || g.Pkg != fn.Pkg || len(g.Blocks) == 0 || len(c.Common().Args) == 0 {
+				continue
+			}
+			for ai, a := range c.Common().Args {
+				if a != sorted || ai >= len(g.Params) {
+					continue
+				}
+				hs, hc := 0, 0
+				for _, blk := range g.Blocks {
+					for _, ins := range blk.Instrs {
+						st, ok := ins.(*ssa.Store)
+						if !ok {
+							continue
+						}
+						ia, ok := st.Addr.(*ssa.IndexAddr)
+						if !ok || ia.X != ssa.Value(g.Params[ai]) {
+							continue
+						}
+						hs++
+						if cc, ok := st.Val.(*ssa.Call); ok && callName(&cc.Call) == "path/filepath.Clean" {
+							if ld, ok := cc.Call.Args[0].(*ssa.UnOp); ok {
+								if ia2, ok := ld.X.(*ssa.IndexAddr); ok && ia2.X == ia.X && ia2.Index == ia.Index {
+									// the index walks the whole slice
+									_, isRange := rangeIndexOf(ia.Index)
+									_, isCounted := countedLoopIndex(g, ia.X, ia.Index, st)
+									if isRange || isCounted {
+										hc++
+									}
+								}
+							}
+						}
+					}
+				}
+				if hs == 1 && hc == 1 && !reachableFrom(sorts[0], c) {
+					stores, cleaned = 1, 1
+				}
+			}
+		}
+	}
 	r.Check(stores > 0 && stores == cleaned, rule, key+"#elements-cleaned", fmt.Sprintf("every path handed on is filepath.Clean'ed before sorting and before the duplicate-match bookkeeping (%d element writes, %d cleaned)", stores, cleaned))
 }
 
@@ -999,7 +1042,21 @@ func sortSites(e *Env, rule string) {
 			name := calleeName(load.Callee(pk.TypesInfo, call))
 			if strings.HasPrefix(name, "sort.") || strings.HasPrefix(name, "slices.Sort") || name == "slices.Reverse" || strings.HasPrefix(name, "math/rand.Shuffle") {
 				n++
-				if why, ok := reviewedSorts[key]; ok {
+				why, ok := reviewedSorts[key]
+				if !ok {
+					// the reviewed site under its current name (renamed, or a method turned into a function)
+					for rk, rw := range reviewedSorts {
+						if i := strings.LastIndex(rk, "/"); i >= 0 {
+							if j := strings.Index(rk[i:], "."); j >= 0 {
+								rrel, rname := rk[:i+j], rk[i+j+1:]
+								if cur := e.P.Resolve(rrel, rname); cur != rname && rrel+"."+cur == key {
+									why, ok = rw, true
+								}
+							}
+						}
+					}
+				}
+				if ok {
 					e.R.Hold(rule, key+" -> "+name, "reviewed reordering site: "+why, e.P.Pos(call.Pos()))
 				} else {
 					e.R.Violate(rule, key+" -> "+name, "reordering call outside the three reviewed sites: declaration order of calls, tags, decorators, arguments or files may no longer be preserved", nil, e.P.Pos(call.Pos()))
